@@ -25,6 +25,10 @@ def gen_cases(rng, tier: str) -> list[dict]:
         if h % 4 == 0:
             ops = rng.choice(H.directed_prefixes(rng, pool)) + ops
         cases.append({"origin": "random" if h % 4 else "directed", "pool": texts, "ops": ops})
+        if h % 2 == 0:
+            pool2 = H.sum_pool(rng) if h % 4 == 0 else pool
+            cases.append({"origin": "resimplify", "pool": H.pool_to_wire(pool2),
+                          "ops": H.repeated_simplification(rng, pool2)})
     return cases
 
 
